@@ -36,7 +36,7 @@ def mc(backend, maxlen, emit):
     if rc != 0:
         res["error"] = out[-2500:]
     shutil.rmtree(wd, ignore_errors=True)
-    json.dump(res, open(cf, "w"))
+    rv.dump_json_atomic(cf, res)
     return res
 
 
@@ -44,20 +44,22 @@ def run_lifetimes(tier, seed):
     rng = random.Random(seed + 77)
     deep = tier == "thorough"
     results = [mc("vec", 8 if deep else 7, False), mc("file", 8 if deep else 7, False)]
-    emit = [mc("vec", 5 if deep else 4, True), mc("file", 5 if deep else 4, True)]
-    for r in results + emit:
+    # every history of <= 4 calls is replayed (all of them: rare orders such as "the owned handle outlives every arena
+    # value" are a handful among tens of thousands); thorough adds a sample of the histories of 5 calls
+    emit = [mc("vec", 4, True), mc("file", 4, True)]
+    emit5 = [mc("vec", 5, True), mc("file", 5, True)] if deep else []
+    for r in results + emit + emit5:
         if r["rc"] != 0:
             raise ToolError("Handles model violates its own invariants: %s" % r.get("error", "")[-800:])
     drivers = []
-    for r in emit:
+    for r in emit + emit5:
         ds = r["drivers"]
-        lim = 6000 if deep else 1500
-        if len(ds) > lim:
+        if r in emit5 and len(ds) > 20000:
             rng.shuffle(ds)
-            ds = ds[:lim]
+            ds = ds[:20000]
         backends = ["file"] if r["backend"] == "file" else ["vec", "anon"]
         for i, ops in enumerate(ds):
-            drivers.append({"id": "h:%s:%d" % (r["backend"], i),
+            drivers.append({"id": "h%d:%s:%d" % (5 if r in emit5 else 4, r["backend"], i),
                             "cfg": {"flavor": ["sync", "unsync"][i % 2], "backend": backends[(i // 2) % len(backends)], "cap": 256,
                                     "reserved": 0, "kind": "opt", "minseg": 8, "unify": False},
                             "ops": ops})
@@ -99,7 +101,7 @@ def run_lifetimes(tier, seed):
         reset, ev = rv.locate(lines, gl)
         drift.append({"what": w, "driver": reset["id"], "i": ev.get("i"), "op": ev.get("op")})
     released = sum(1 for l in lines if '"unmounts":1' in l)
-    cov = {"states": sum(x["distinct"] for x in results + emit), "transitions": sum(x["generated"] for x in results + emit),
+    cov = {"states": sum(x["distinct"] for x in results + emit + emit5), "transitions": sum(x["generated"] for x in results + emit + emit5),
            "drivers": len(drivers), "events": len(lines), "released_events": released, "sample": drivers[len(drivers) // 2]}
     return cov, viol, drift
 
